@@ -64,7 +64,7 @@ def run_job(job, workdir):
                         method=job["method"], weights=w0, n_jobs=job.get("n_jobs", 2),
                         n_outcomes_per_job=job.get("n_outcomes_per_job", 10),
                         remove_duplicates=pol, temporary_directory=workdir, **kw)
-            return data_array_cells(w)
+            return data_array_cells(w, select=job.get("select"))
         return capture(go)
     if kind == "kernel":
         from pyndl import ndl_parallel, ndl_openmp
